@@ -1,9 +1,8 @@
 From Coq Require Import List String Ascii Bool Arith Lia Sorting.Sorted.
 Import ListNotations.
-Require Import SDJ.Json SDJ.Model2 SDJ.ATree SDJ.T2a SDJ.T2b SDJ.T2c SDJ.T2d SDJ.T2e SDJ.T2f SDJ.T2g SDJ.T2h SDJ.T2i SDJ.T2j SDJ.T2k SDJ.T2l.
+Require Import SDJ.Json SDJ.Model2 SDJ.ATree SDJ.T2a SDJ.T2b SDJ.T2c SDJ.T2d SDJ.T2e SDJ.T2f SDJ.T2g SDJ.T2h SDJ.T2i SDJ.T2j SDJ.T2k SDJ.T2l SDJ.Restore2.
 Local Open Scope string_scope.
 
-Inductive dec_result := DErr | DJson (j : json).
 
 Section M.
 Variable H : string -> string.
@@ -23,31 +22,9 @@ Notation wf := (wf H enc).
 Notation IsNode := (IsNode H enc).
 Notation passes := (passes show_nat).
 
-Definition reserved (k : string) : bool := String.eqb k "_sd" || String.eqb k "...".
-
-(* Disclosure::from_base64 after repairs F12a/F12b; the digest is that of the presented string *)
-Definition from_base64 (s : string) : res disc :=
-  match dec s with
-  | DJson (JArr xs) =>
-      match xs with
-      | [salt; v] => Ok {| d_str := s; d_digest := H s; d_key := None; d_val := v |}
-      | [salt; k; v] =>
-          match k with
-          | JStr name => if reserved name then Err else Ok {| d_str := s; d_digest := H s; d_key := Some name; d_val := v |}
-          | _ => Err end
-      | _ => Err
-      end
-  | _ => Err
-  end.
-
-Fixpoint decode_all (l : list string) : res (list disc) :=
-  match l with
-  | [] => Ok []
-  | s :: r => do d <- from_base64 s; do ds <- decode_all r; Ok (d :: ds)
-  end.
-
-Definition restore_disclosures (claims : json) (L : list string) : res (json * list dpath) :=
-  do ds <- decode_all L; passes (S (List.length ds)) ds claims [].
+Notation from_base64 := (from_base64 H dec).
+Notation decode_all := (decode_all H dec).
+Notation restore_disclosures := (restore_passes H dec show_nat).
 
 Definition parts_of (salt : json) (k : option string) (v : json) : list json :=
   match k with Some n => [salt; JStr n; v] | None => [salt; v] end.
